@@ -230,11 +230,13 @@ def run(ctx):
         if f is None:
             raise AnalysisIncomplete("anchor vanished: %s" % name)
         ctx.touch(f)
+        # the states in which nothing of the utterance is touched (per-state CFG reachability, see C09)
         got = set()
-        for (s0, d0, cc, pol) in f.cfg.cond_edges():
-            r = paths.rel(f, cc, True, subst=False)
-            if r and r[1] == "==" and r[2].endswith("->acmod->state"):
-                got.add((r[0], True))
+        work = [c for c in f.calls() if f.nodes[c].get("callee") in ("acmod_start_utt", "acmod_end_utt", "search_module_start", "search_module_finish")]
+        for sv, stn in enumerate(("ACMOD_IDLE", "ACMOD_STARTED", "ACMOD_PROCESSING", "ACMOD_ENDED")):
+            ex = paths.edges_excluded_when(f, lambda fn, n: fn.canon(n).endswith("->state"), sv)
+            if work and not f.cfg.path_exists((f.cfg.entry, 0), lambda e: e in work, start_after=False, removed_edges=ex):
+                got.add((stn, True))
         ctx.check(r4, got == want, key(f, "gate"), f.where(f.root), "%s rejects states %s, expected %s" % (name, sorted(got), sorted(want)))
 
     # ---- REWIND -----------------------------------------------------------------------------------
